@@ -72,7 +72,7 @@ _add(
     " lookup domain (every other module-level name must be rejected), mean formulas == textbook G/H/A for arity 1..6 and"
     " selectors; for every constrained op x rule name: forward scale == each constrained grad scale == rule(ideal scales),"
     " weight/bias grad scales outside the group; fixed-constraint ops use one value.",
-    TRUST + " 8 known findings: module globals of constraints.py leak into the name lookup (see known_findings.json).",
+    TRUST + "",
     AI + " + sympy equality; call-graph model of getattr(sys.modules[__name__], name)",
 )
 _add(
